@@ -128,3 +128,60 @@ pub fn c01a_sass_loud_comment_4() { sass_loud::<4>() }
 #[kani::stub(alloc::fmt::format, fmt_stub)]
 pub fn c01a_sass_loud_comment_6() { sass_loud::<6>() }
 
+
+// ---- C01c: escape readers ----
+
+fn escaped_char<const N: usize>() {
+    let lx = lexer::<1, N>(['\\']);
+    let (out, lx) = base_op(lx, BaseOp::ConsumeEscapedChar);
+    let end = lx.cursor();
+    assert!(end >= 1 && end <= N + 1, "C01c: cursor left the buffer");
+    check_span_inside(&out, 4 * (N + 1) as u32);
+    match out {
+        BaseOut::Char(c) => {
+            // at most 6 hex digits and one terminating whitespace are consumed
+            assert!(end <= 8, "C01c: an escape consumed more than six hex digits and a terminator");
+            let first = if N > 0 { Some(lx.kind(1)) } else { None };
+            match first {
+                None => assert!(c == '\u{FFFD}', "C01c: backslash at end of input must read as U+FFFD"),
+                Some(f) if f.is_ascii_hexdigit() => {
+                    // value of the hex run
+                    let mut v: u32 = 0;
+                    let mut i = 1;
+                    while i < N + 1 && i < 7 && lx.kind(i).is_ascii_hexdigit() {
+                        v = v * 16 + lx.kind(i).to_digit(16).unwrap();
+                        i += 1;
+                    }
+                    let want = if v == 0 || (0xD800..=0xDFFF).contains(&v) || v >= 0x10FFFF { '\u{FFFD}' } else { char::from_u32(v).unwrap() };
+                    assert!(c == want, "C01c: hex escape decoded to the wrong code point");
+                    kani::cover!(c == '\u{FFFD}' && v != 0xFFFD, "replacement_char");
+                }
+                Some(f) => assert!(c == f && end == 2, "C01c: a non-hex escape must yield the escaped character itself"),
+            }
+            kani::cover!(end == 8, "six_digits_and_space");
+        }
+        BaseOut::Err(_) => {
+            // only a newline directly after the backslash is an error
+            assert!(N > 0 && (lx.kind(1) == '\n' || lx.kind(1) == '\r'), "C01c: an escape was rejected although it is not followed by a newline");
+            kani::cover!(true, "err");
+        }
+        _ => assert!(false),
+    }
+    kani::cover!(true, "end");
+    core::mem::forget(lx);
+}
+
+#[kani::proof]
+#[kani::unwind(10)]
+#[kani::stub(alloc::fmt::format, fmt_stub)]
+pub fn c01c_escaped_char_7() { escaped_char::<7>() }
+
+#[kani::proof]
+#[kani::unwind(10)]
+#[kani::stub(alloc::fmt::format, fmt_stub)]
+pub fn c01c_escaped_char_2() { escaped_char::<2>() }
+
+#[kani::proof]
+#[kani::unwind(10)]
+#[kani::stub(alloc::fmt::format, fmt_stub)]
+pub fn c01c_escaped_char_0() { escaped_char::<0>() }
